@@ -15,7 +15,8 @@ for d in $DIRS; do
   git -C "$REPO" apply "$(readlink -f $d/patch.diff)" || { echo "$d: patch does not apply"; fail=1; continue; }
   for id in $ids; do
     out=$(./check $id quick 2>&1); rc=$?
-    if [ $rc -eq 1 ] && echo "$out" | grep -q "^VIOLATION property=$id"; then echo "$d: caught by $id"; else echo "$d: NOT caught by $id (rc=$rc)"; fail=1; fi
+    occ=$(echo "$out" | grep -o "([0-9]* occurrences)" | tr -dc '0-9\n' | paste -sd+ | bc 2>/dev/null)
+    if [ $rc -eq 1 ] && echo "$out" | grep -q "^VIOLATION property=$id"; then echo "$d: caught by $id (${occ:-?} violating observations)"; else echo "$d: NOT caught by $id (rc=$rc)"; fail=1; fi
   done
   git -C "$REPO" checkout -- .
   git -C "$REPO" clean -fdq kiki kiki_e2e_test 2>/dev/null
